@@ -434,8 +434,11 @@ func corpusScenarios() []scenario {
 		mk("remove-flag-other-case", boot, txn{Ops: []op{{K: "RemoveFlag", Ids: []int{1}, Flag: "foo"}, {K: "GetMessagesFlags", Ids: []int{1}}}}),
 		mk("flag-with-comma", boot, txn{Ops: []op{{K: "AddFlag", Ids: []int{2}, Flag: "a,b"}, {K: "GetMessagesFlags", Ids: []int{2}}, {K: "Snapshot", Box: 1}}}),
 		mk("delete-message-still-in-mailbox", boot, txn{Ops: []op{{K: "DeleteMessages", Ids: []int{1}}}}, txn{Ops: []op{{K: "RemoveMessages", Box: 1, Ids: []int{1}}, {K: "DeleteMessages", Ids: []int{1}}, {K: "GetAllMessageIDs"}}}),
-		mk("remove-1005-messages", txn{Ops: []op{{K: "CreateMailbox", N1: 1, N2: 1, N3: 5, Flags: []string{}}, {K: "CreateMessages", Reqs: plainReqs(1, 1005)}, {K: "AddMessages", Box: 1, Pairs: pairsOf(seq(1, 1005))}}},
-			txn{Ops: []op{{K: "RemoveMessages", Box: 1, Ids: seq(1, 1005)}, {K: "GetMessageCount", Box: 1}}}),
+		mk("remove-more-than-one-chunk", txn{Ops: []op{{K: "CreateMailbox", N1: 1, N2: 1, N3: 5, Flags: []string{}}, {K: "CreateMessages", Reqs: plainReqs(1, chunkLimit+5)}, {K: "AddMessages", Box: 1, Pairs: pairsOf(seq(1, chunkLimit+5))}}},
+			txn{Ops: []op{{K: "RemoveMessages", Box: 1, Ids: seq(1, chunkLimit+5)}, {K: "GetMessageCount", Box: 1}}}),
+		mk("mark-deleted-frees-the-remote-id", boot, txn{Ops: []op{{K: "MarkDeletedRandomRemote", N1: 2, N2: 800001}, {K: "MessageExistsRemote", N1: 2},
+			{K: "GetMessageDeleted", N1: 2}, {K: "GetMessageRemote", N1: 2}, {K: "CreateMessages", Reqs: []req{{ID: 9, Remote: 2, Flags: []string{"again"}}}},
+			{K: "GetMessageIDFromRemote", N1: 2}, {K: "GetMarkedDeleted"}}}),
 		mk("create-and-add-with-deleted-flag", boot, txn{Ops: []op{{K: "CreateMailbox", N1: 2, N2: 2, N3: 6, Flags: []string{}},
 			{K: "CreateMessageAndAdd", Box: 1, Reqs: []req{{ID: 4, Remote: 4, Flags: []string{`\Deleted`, "Foo"}}}},
 			{K: "CreateMessageAndAdd", Box: 1, Reqs: []req{{ID: 5, Remote: 5, Flags: []string{`\deleted`}}}},
@@ -490,42 +493,65 @@ func overlapScenario(ctx *common.Ctx, idx int) scenario {
 	return sc
 }
 
+// traced returns copies of the scenarios that run on a client with the tracing wrappers (Go oracle only).
+func traced(l []scenario) []scenario {
+	var out []scenario
+	for _, sc := range l {
+		c := sc
+		c.Name += "+trace"
+		c.Trace = true
+		c.NoCoq = true
+		out = append(out, c)
+	}
+	return out
+}
+
 func genScenarios(ctx *common.Ctx) []scenario {
 	var scs []scenario
 	scs = append(scs, corpusScenarios()...)
+	scs = append(scs, traced(corpusScenarios())...)
 	thorough := ctx.Tier == "thorough"
 	scs = append(scs, abortScenario(3))
+	scs = append(scs, traced([]scenario{abortScenario(3)})...)
 	for i := 0; i < ctx.Budget(4, 30); i++ {
-		scs = append(scs, overlapScenario(ctx, i))
+		sc := overlapScenario(ctx, i)
+		sc.Trace = i%2 == 1
+		scs = append(scs, sc)
 	}
 	if thorough {
-		scs = append(scs, abortScenario(1001))
+		scs = append(scs, abortScenario(chunkLimit+1))
 	}
 	nModel, nFull, ntx := ctx.Budget(25, 250), ctx.Budget(25, 250), 14
 	for i := 0; i < nModel; i++ {
 		scs = append(scs, randomScenario(ctx, fmt.Sprintf("model-%d", i), true, ntx))
 	}
 	for i := 0; i < nFull; i++ {
-		scs = append(scs, randomScenario(ctx, fmt.Sprintf("full-%d", i), false, ntx))
+		sc := randomScenario(ctx, fmt.Sprintf("full-%d", i), false, ntx)
+		sc.Trace = i%2 == 1 // every other history goes through the tracing wrappers
+		scs = append(scs, sc)
 	}
-	// batches
-	sizes := []int{1001}
+	// batches: the sizes follow db.ChunkLimit (a changed limit moves every boundary, and the number of bind variables of
+	// one statement grows with it)
+	L := chunkLimit
+	sizes := []int{L + 1}
 	if thorough {
-		sizes = []int{0, 1, 499, 500, 501, 999, 1000, 1001, 1002, 1499, 1500, 1501, 1999, 2000, 2001, 2002, 2500}
+		sizes = []int{0, 1, L/2 - 1, L / 2, L/2 + 1, L - 1, L, L + 1, L + 2, L + L/2 - 1, L + L/2, L + L/2 + 1, 2*L - 1, 2 * L, 2*L + 1, 2*L + 2, 2*L + L/2}
 	} else {
 		// one more size on the other boundaries, varied by the seed
-		extra := []int{999, 1000, 2001, 501, 2000, 1999, 500}
+		extra := []int{L - 1, L, 2*L + 1, L/2 + 1, 2 * L, 2*L - 1, L / 2}
 		sizes = append(sizes, extra[int(ctx.Seed)%len(extra)])
 	}
-	coqSizes := map[int]bool{0: true, 1: true, 500: true, 501: true, 1000: true, 1001: true, 2001: true}
+	coqSizes := map[int]bool{0: true, 1: true, L / 2: true, L/2 + 1: true, L: true, L + 1: true, 2*L + 1: true}
 	for i, n := range sizes {
 		b := batchScenario(n, i%2)
 		// the Coq model evaluates only some of the batches (vm_compute on 1000-element lists costs seconds per operation)
 		b.NoCoq = (!thorough && i > 0) || (thorough && !coqSizes[n])
+		b.Trace = !thorough && i > 0 // the second quick batch runs on the traced client
 		scs = append(scs, b)
 		if thorough {
 			b2 := batchScenario(n, (i+1)%2)
 			b2.NoCoq = true
+			b2.Trace = true
 			scs = append(scs, b2)
 		}
 	}
@@ -535,9 +561,9 @@ func genScenarios(ctx *common.Ctx) []scenario {
 		for i := 0; i < 40; i++ {
 			many = append(many, fmt.Sprintf("kw%d", i))
 		}
-		sc := batchScenario(600, 0)
+		sc := batchScenario(L/2+100, 0)
 		sc.Name = "setflags-many-flags"
-		sc.Txs = append(sc.Txs[:3], txn{Ops: []op{{K: "SetFlags", Ids: seq(1, 600), Flags: many}}}, txn{Ops: []op{{K: "SetFlags", Ids: seq(1, 600), Flags: many[:30]}, {K: "GetMessagesFlags", Ids: seq(1, 3)}}})
+		sc.Txs = append(sc.Txs[:3], txn{Ops: []op{{K: "SetFlags", Ids: seq(1, L/2+100), Flags: many}}}, txn{Ops: []op{{K: "SetFlags", Ids: seq(1, L/2+100), Flags: many[:30]}, {K: "GetMessagesFlags", Ids: seq(1, 3)}}})
 		scs = append(scs, sc)
 	}
 	_ = strings.Join
